@@ -267,10 +267,11 @@ func checkC20(c *Ctx, r *Report) {
 	resetK := "(*" + swarmP + ".BlackHoleSuccessCounter).reset"
 	if rr := r2.need("(*" + swarmP + ".BlackHoleSuccessCounter).RecordResult"); rr != nil {
 		var blockedCmp ssa.Value
+		blockedWhen := true
 		allInstrs(rr, func(in ssa.Instruction) {
-			if b, ok := in.(*ssa.BinOp); ok && b.Op == token.EQL && isLoadOfField(ctrT+".state")(strip2(b.X)) {
-				if v, ok := constInt(b.Y); ok && v == stBlocked {
-					blockedCmp = b
+			if v, ok := in.(ssa.Value); ok {
+				if x, k, isEq, ok := eqConstOf(v); ok && k == stBlocked && isLoadOfField(ctrT+".state")(strip2(x)) {
+					blockedCmp, blockedWhen = v, isEq
 				}
 			}
 		})
@@ -278,7 +279,7 @@ func checkC20(c *Ctx, r *Report) {
 		if blockedCmp == nil || succ == nil {
 			r2.Fail("RecordResult: state==Blocked && success test", rr.Pos(), "test not found", "")
 		} else {
-			q := &Cut{Fn: rr, Assume: map[ssa.Value]bool{blockedCmp: true, succ: true}, Sep: callPred(resetK),
+			q := &Cut{Fn: rr, Assume: map[ssa.Value]bool{blockedCmp: blockedWhen, succ: true}, Sep: callPred(resetK),
 				Target: func(in ssa.Instruction) bool {
 					switch in.(type) {
 					case *ssa.Return:
@@ -497,8 +498,8 @@ func checkC20(c *Ctx, r *Report) {
 					w, n := (&Cut{Fn: da, Target: isInstr(in), EdgeCut: edgeNil(isDialErr, bv)}).Run(c)
 					r5.Check(w == "", fmt.Sprintf("dialAddr: RecordResult(addr, %v) only where the dial error is %snil", bv, map[bool]string{true: "", false: "non-"}[bv]), instrPos(in), n+1, "", "the recorded outcome is not the outcome of this dial", w)
 				} else {
-					bo, ok := strip2(a[2]).(*ssa.BinOp)
-					r5.Check(ok && bo.Op == token.EQL && isNilConst(bo.Y) && isDialErr(bo.X), "dialAddr: RecordResult(addr, dialErr == nil)", instrPos(in), 1, "", "the recorded outcome is not the outcome of this dial", "")
+					x, isEq, ok := nilCmpOf(strip2(a[2]))
+					r5.Check(ok && isEq && isDialErr(x), "dialAddr: RecordResult(addr, dialErr == nil)", instrPos(in), 1, "", "the recorded outcome is not the outcome of this dial", "")
 				}
 				// one record per dial
 				w, n := (&Cut{Fn: da, From: []ssa.Instruction{in}, Target: callPred(recK)}).Run(c)
